@@ -41,6 +41,15 @@ class LoopView:
     def old(self, name):
         return self.entry.env[name]
 
+    def bound(self, name):
+        """Bool term: the local `name` is bound in the current state"""
+        v = self.st.env.get(name)
+        if v is None or isinstance(v, Unbound):
+            return t.FALSE
+        if isinstance(v, MaybeBound):
+            return v.cond
+        return t.TRUE
+
     def oldobj(self, name):
         return self.obj(name, self.entry)
 
@@ -254,6 +263,14 @@ class Engine:
             raise OutOfReach('ellipsis')
         raise OutOfReach('constant %r' % (c,))
 
+    def dyn_bytes(self, v, st):
+        """the bytes payload of a Val known to be bytes: a view whose elements are byte values (type invariant of bytes)"""
+        b = VBytes(t.app('barr', t.ARR, v.t), t.app('boff', t.INT, v.t), t.app('blen', t.INT, v.t))
+        st.assume(t.ge(b.len, t.ZERO))
+        if b.arr.op != 'store' and b.arr.op != 'constarr':
+            self.assume_byte_range(st, b.arr, b.off, b.len)
+        return b
+
     def fresh_bytes(self, st, base='bytes', ln=None):
         arr = fresh(base + '_arr', t.ARR)
         ln = ln if ln is not None else fresh(base + '_len', t.INT)
@@ -345,8 +362,17 @@ class Engine:
             n = len(e.keys)
             keys, vals = vs[:n], vs[n:]
             items = {}
-            for kk, vv in zip(keys, vals):
-                items[self.hashable(kk)] = vv
+            try:
+                for kk, vv in zip(keys, vals):
+                    items[self.hashable(kk)] = vv
+            except OutOfReach:
+                has = t.const_arr(t.FALSE, 'VMapHas')
+                get = fresh('dictvals', 'VMapGet')
+                for kk, vv in zip(keys, vals):
+                    kt = self.to_dyn(kk, st1)
+                    has = t.T('VMapHas', 'store', (has, kt, t.TRUE))
+                    get = t.T('VMapGet', 'store', (get, kt, self.to_dyn(vv, st1)))
+                return [(st1, st1.alloc(ODict(has=has, get=get), 'dict'))]
             return [(st1, st1.alloc(ODict(items), 'dict'))]
         return self.bind(self.ev_list(list(e.keys) + list(e.values), st), k)
 
